@@ -73,12 +73,15 @@ def write_source(path, kind, fset, gaps=None):
                        gap=gaps)
     else:
         fl = []
-        g = 10
+        g = 33
         for s in specs:
             k = c07.kind_of(s)
             stream = dskfs.make_stream({"ML": "ml", "BAS": "basic"}.get(k, "ascii"), C.pattern(s["n"], s["pat"]), s["load"], s["exec"])
             need = len(stream) // 2304 + 1
-            fl.append({"name": s["name"], "ext": s["ext"], "type": s["type"], "dtype": s["dtype"], "stream": stream, "chain": list(range(g, g + need))})
+            chain = list(range(g, g + need))
+            if len(fl) % 2:                      # every second file on a descending chain, the first one across the directory track
+                chain = chain[::-1]
+            fl.append({"name": s["name"], "ext": s["ext"], "type": s["type"], "dtype": s["dtype"], "stream": stream, "chain": chain})
             g += need + 1
         b = dskfs.write(fl)
     open(path, "wb").write(b)
